@@ -245,6 +245,8 @@ func cpuMain(c *Ctx) {
 		cpuGen(c)
 	case "rerun":
 		cpuRerun(c)
+	case "meta":
+		cpuMeta(c)
 	default:
 		die("cpu: unknown mode %s", c.Mode)
 	}
@@ -1020,4 +1022,23 @@ func (r *cpuRig) runSeq(id string, regs []int, base int, code []int, dseed int64
 		sc.Ev = append(sc.Ev, []any{kind, pre, ob, bus, post, n})
 	}
 	return sc
+}
+
+// cpuMeta dumps the repository's own instruction table (instruction_metadata.go: mnemonic, length, clock cycles,
+// flag column) as one scenario whose events are the rows: [prefixed, opcode, length, [cycles..], [Z, N, H, C]].
+// It is an independent description of the instruction set; SM83_Meta.tla cross-checks the specification against it.
+func cpuMeta(c *Ctx) {
+	w := trace.NewWriter(c.Out, "meta", 1<<30)
+	sc := &trace.Scenario{ID: "cpu-meta", Reset: []int{}}
+	for pf := 0; pf < 2; pf++ {
+		for op := 0; op < 256; op++ {
+			mn, length, cycles, flags, ok := cpu.VerifMetadata(pf == 1, uint8(op))
+			if !ok {
+				continue
+			}
+			sc.Ev = append(sc.Ev, []any{pf, op, length, cycles, []string{flags[0], flags[1], flags[2], flags[3]}, mn})
+		}
+	}
+	w.Put(sc)
+	w.Close()
 }
